@@ -231,6 +231,15 @@ func implParse(pat, text string) parseRes {
 	return res
 }
 
+// fmtMs: a decimal millisecond instant as UTC text (for messages)
+func fmtMs(dec string) string {
+	v, err := strconv.ParseInt(dec, 10, 64)
+	if err != nil {
+		return dec
+	}
+	return time.UnixMilli(v).UTC().Format("2006-01-02T15:04:05.000Z")
+}
+
 func implFormat(pat string, t int64) string {
 	return guardS(func() string { return dateutil.NewDateFormat(pat).FormatTime(time.UnixMilli(t).UTC()) })
 }
@@ -456,6 +465,8 @@ func main() {
 		"F: one DateFormat object parsing 2-4 texts in a row (formatted instants, cut short, with signs/letters) vs the object model. " +
 		"E: 12-16 goroutines call every public helper on their own instants (two shared) for a fixed time, every answer vs the value precomputed from the time package; run in a child process (crash = finding), under -race in the thorough tier. " +
 		"C: patterns over the letters ymdHMSs with random literal separators (ASCII, digits, non-ASCII), full and partial, x instants; " +
+		"M: the exported LPadInt (widths -1..6, both signs) and ToInt (short texts with digits, signs, letters; bytes left in the reader) called directly vs the model, ToInt(LPadInt(v,w)+rest) = v evaluated directly, Format() vs FormatTime of the call window; " +
+		"L: every ASCII code point that is not a field letter and 40 non-ASCII runes as the literal, each in 11 shapes (once, between all letters, paired around a letter / a literal, doubled, tripled, leading, trailing, three partial patterns): round trip and model; " +
 		"non-trivial = pattern with at least one field letter; distinct = distinct (pattern, instant)."
 
 	var lines []string
@@ -663,10 +674,19 @@ func main() {
 		want := truncTo(pat, t)
 		if pr.out != strconv.FormatInt(want, 10) {
 			key := "DateFormat.Parse:format-parse-differs"
+			msg := fmt.Sprintf("Parse(%q) with pattern %q = %s, want %d (the instant truncated to the pattern's fields)", text, pat, pr.out, want)
 			if !full && pr.out != "err" && pr.out != "panic" {
-				key = keyD41
+				// known finding D41 explains a partial pattern only as far as the ABSENT fields go (they come from the clock);
+				// the fields present in the pattern must come back from the text (C19.obj_format_parse) — evaluated directly
+				if presentFieldsOK(pat, t, pr.out) {
+					key = keyD41
+				} else {
+					key = "DateFormat.Parse:present-field-lost"
+					msg = fmt.Sprintf("Parse(%q) with pattern %q = %s = %s: a field that the pattern names does not come back from the text (instant formatted: %s)",
+						text, pat, pr.out, fmtMs(pr.out), time.UnixMilli(t).UTC().Format("2006-01-02T15:04:05.000Z"))
+				}
 			}
-			rep.Fail("property", key, fmt.Sprintf("Parse(%q) with pattern %q = %s, want %d (the instant truncated to the pattern's fields)", text, pat, pr.out, want), rp)
+			rep.Fail("property", key, msg, rp)
 		}
 		if len(rep.Samples) < 8 {
 			rep.Sample(map[string]interface{}{"pattern": pat, "t": t, "text": text, "parsed": pr.out})
@@ -713,6 +733,10 @@ func main() {
 		for i := 0; i < npat; i++ {
 			checkPattern(genPattern(rng, rng.Chance(70)), instants())
 		}
+		// L: the whole alphabet of literal runes (see literals.go)
+		literalStage(rep, rng.Fork(), env.Thorough, checkPattern)
+		// M: the exported primitives LPadInt / ToInt / Format() called directly
+		primitivesStage(rep, rng.Fork(), env.Thorough, add, func() int { group++; return group })
 		// malformed texts: truncated, letter for a digit, empty
 		for i := 0; i < npat/5; i++ {
 			pat := genPattern(rng, true)
@@ -896,34 +920,7 @@ func main() {
 	// The object keeps its field map between calls (after a successful call all seven keys are set),
 	// so later calls take absent fields from the map, not from the clock.  Model: parseObj/parseHistory.
 	// presentOK: the parsed instant carries, for every letter present in the pattern, the field of t
-	presentOK := func(pat string, t int64, res string) bool {
-		v, err := strconv.ParseInt(res, 10, 64)
-		if err != nil {
-			return false
-		}
-		if hasAll(pat) {
-			return v == t
-		}
-		a, b := time.UnixMilli(t).UTC(), time.UnixMilli(v).UTC()
-		// only when the absent fields cannot push the date over (day present ⇒ compare all present date fields on the same footing)
-		ok := true
-		if strings.ContainsRune(pat, 'H') {
-			ok = ok && a.Hour() == b.Hour()
-		}
-		if strings.ContainsRune(pat, 'M') {
-			ok = ok && a.Minute() == b.Minute()
-		}
-		if strings.ContainsRune(pat, 'S') {
-			ok = ok && a.Second() == b.Second()
-		}
-		if strings.ContainsRune(pat, 's') {
-			ok = ok && a.Nanosecond()/1000000 == b.Nanosecond()/1000000
-		}
-		if strings.ContainsRune(pat, 'y') && strings.ContainsRune(pat, 'm') && strings.ContainsRune(pat, 'd') {
-			ok = ok && a.Year() == b.Year() && a.Month() == b.Month() && a.Day() == b.Day()
-		}
-		return ok
-	}
+	presentOK := presentFieldsOK
 	var objInstants []int64 // set by callers that format unmodified instants: enables the direct round-trip assertion
 	objHistory := func(pat string, texts []string, tag string) {
 		var outs []string
@@ -1303,6 +1300,8 @@ func main() {
 			checkMalformed(c["pattern"].(string), c["text"].(string))
 		case "Y":
 			checkYmd(c["s"].(string), "replay")
+		case "ML", "MLI", "MI", "MFN":
+			primitivesStage(rep, vh.NewRng(env.Seed), false, add, func() int { group++; return group })
 		case "I":
 			var job dfJob
 			if raw, err := json.Marshal(c); err == nil {
@@ -1510,8 +1509,11 @@ func main() {
 	}
 	propFns := map[string]bool{}
 	for _, f := range rep.Failures {
-		if f.Kind == "property" {
+		if f.Kind == "property" && f.Key != keyD41 && f.Key != keyD40 { // the known findings are met on every run: they explain nothing else
 			propFns[fn(f.Key)] = true
+			if strings.HasPrefix(f.Key, "DateFormat.Parse:format-parse-differs") || strings.HasPrefix(f.Key, "DateFormat.Parse:present-field-lost") {
+				propFns["DateFormat.format"] = true // the round trip failed on an exhibited pattern: the text format wrote is part of that finding
+			}
 		}
 	}
 	// a function that is wrong on a plain instant in the plain (UTC, delta 0, sequential) setting is reported as that;
